@@ -53,7 +53,7 @@ ASSUMPTIONS = ['writers are validated byte-for-byte against the sample files und
                'little-endian host (the formats are written little-endian as documented; the readers use native byte order except for the sfqcd header)',
                'not judged, counted: in-place sorting of the caller\'s files / replica lists by the sfcf readers, read_hd5(idl=[]) returning all configurations, '
                'exceptions for selection types the documentation does not list']
-BUDGET = {'quick': 45, 'thorough': 480}
+BUDGET = {'quick': 70, 'thorough': 480}
 TMPROOT = '/var/tmp'
 
 PE = None
